@@ -25,10 +25,11 @@ def count_until(fn, start, counted, stop, count_start=False):
     onstack = set()
 
     def go(b, first):
-        if not first and (stop(b) or fn.blocks[b]["term"]["k"] == "return"):
+        if not first and stop(b):
             return (0, 0)
         if fn.blocks[b]["term"]["k"] == "return":
-            return (0, 0)
+            c0 = 1 if (counted(b) and (count_start or not first)) else 0
+            return (c0, c0)
         if b in memo:
             return memo[b]
         if b in onstack:
